@@ -1992,3 +1992,20 @@ package ice
 //@ func (*interim).writeStoredFields
 //@   at loopexit#2 lemma[C06] fieldID == len(s.FieldsInv)
 //@   loop 2 invariant[C06] 0 <= fieldID && fieldID <= len(s.FieldsInv)
+//@
+//@ // ---- C01: a term's locations are consumed posting by posting: the running position in the
+//@ // term's location array advances by the number of LOCATIONS of each posting (not its frequency:
+//@ // a posting may have fewer locations than occurrences) ----
+//@ ghostvar lo0 int
+//@ ghostvar ln0 int
+//@ func (*interim).writeDictsTermField
+//@   at call:(*chunkedIntCoder).Add#1 ghostset lo0 = locOffset
+//@   at call:(*chunkedIntCoder).Add#1 ghostset ln0 = freqNorm.numLocs
+//@   loop 0 invariant[C01] @locations_consumed_per_posting locOffset == 0 || locOffset == lo0 + ln0
+//@
+//@ // ---- C08: the count reported with a dictionary entry is read from the postings offset of that
+//@ // very entry (term and offset come from one Current() of the FST iterator, before it advances) ----
+//@ ghostvar dio int
+//@ func (*DictionaryIterator).Next
+//@   at call:(github.com/blevesearch/vellum.Iterator).Current#0 ghostset dio = result1
+//@   at call:(*PostingsList).read#0 lemma[C08] postingsOffset == dio
